@@ -547,14 +547,28 @@ pub fn epoch_ops(rng : &mut Rng, leaves : &[String], targets : &[String], epochs
         Some(p) => SchedSpec{ strategy : rng.pick(p).clone(), seed : 0 },
         None => SchedSpec::random(rng),
     };
+    // what each leaf was set to in each epoch (None = never written by this generator), so that an
+    // epoch can put all leaves back to an earlier state at once
+    let mut states : Vec<Vec<Option<Vec<u8>>>> = vec![leaves.iter().map(|_| None).collect()];
     for e in 0..epochs
     {
         if e > 0
         {
-            for l in leaves.iter()
+            let mut now = states.last().unwrap().clone();
+            if e >= 2 && rng.chance(1, 4)
             {
-                if rng.chance(3, 5) { ops.push(Op::Write{ path : l.clone(), content : rng.pick(&pool).to_vec() }); }
+                now = states[rng.below((states.len() - 1) as u64) as usize].clone();
+                for v in now.iter_mut() { if v.is_none() { *v = Some(rng.pick(&pool).to_vec()); } }
             }
+            else
+            {
+                for v in now.iter_mut() { if rng.chance(3, 5) { *v = Some(rng.pick(&pool).to_vec()); } }
+            }
+            for (i, l) in leaves.iter().enumerate()
+            {
+                if now[i] != states.last().unwrap()[i] { if let Some(c) = &now[i] { ops.push(Op::Write{ path : l.clone(), content : c.clone() }); } }
+            }
+            states.push(now);
             if targets.len() > 0 && clean_one_in > 0 && rng.chance(1, clean_one_in)
             {
                 let s = sched(rng);
